@@ -515,6 +515,10 @@ func (r *Run) load(st *State, a *Addr) TV {
 					r.assumeGlobal(not(eq(app("i_tag", init), "0")))
 					r.assumed["global initialised once by its package and never reassigned: "+a.glob.String()+" != nil"] = true
 				}
+				if gf.nonNilRef && sort == SInt {
+					r.assumeGlobal(app(">", init, "0"))
+					r.assumed["global initialised once by its package and never reassigned: "+a.glob.String()+" != nil"] = true
+				}
 				if gf.constInit != nil {
 					r.assumeGlobal(eq(init, r.constVal(gf.constInit).S))
 					r.assumed["global initialised once by its package and never reassigned: "+a.glob.String()] = true
